@@ -92,17 +92,22 @@ def coq_bool(b):
 
 
 def tol_for(values, rel=2.0 ** -30):
-    """absolute tolerance (exact dyadic) scaled by 1+max|v|"""
-    m = 0.0
+    """absolute tolerance (exact dyadic): rel * (1 + spread of the values) + 2^-44 * max|v| (float noise of the
+    magnitude).  Spread-based so that a series sitting on a large baseline is still compared tightly."""
+    vs = []
     for v in values:
         try:
-            a = abs(float(v))
+            a = float(v)
         except Exception:
             continue
-        if math.isfinite(a) and a > m:
-            m = a
-    t = rel * (1.0 + m)
-    return q(Fraction(t).limit_denominator(1 << 60) if not _ispow2(Fraction(t).denominator) else Fraction(t))
+        if math.isfinite(a):
+            vs.append(a)
+    if not vs:
+        return q(Fraction(rel))
+    spread = max(vs) - min(vs)
+    m = max(abs(v) for v in vs)
+    t = rel * (1.0 + min(spread, m)) + 2.0 ** -44 * m
+    return q(Fraction(t).limit_denominator(1 << 80))
 
 
 EXN_NAMES = {"ValueError", "IndexError", "TypeError", "OSError", "AttributeError", "StopIteration"}
